@@ -1,4 +1,4 @@
-//go:build !skip_c16
+//go:build !skip_c16_cfg
 
 package main
 
